@@ -280,6 +280,25 @@ func Fail(tb TB, kind, signature string, cas any, format string, args ...any) bo
 	return true
 }
 
+// InFlight records the case about to be evaluated, so that a crash of the whole
+// process (a panic in a library goroutine, fatal runtime error) can be
+// attributed to it by the driver.  Only scenario-style properties call it.
+func InFlight(kind string, cas any) {
+	if c.replaying {
+		return
+	}
+	dir := os.Getenv("VERIF_REPLAY_DIR")
+	if dir == "" {
+		dir = filepath.Join(os.TempDir(), "verif-replays")
+	}
+	os.MkdirAll(dir, 0o755)
+	b, err := json.Marshal(map[string]any{"property": c.Property, "kind": kind, "signature": "process-crash", "message": "the process died while this case was running", "case": cas})
+	if err != nil {
+		return
+	}
+	os.WriteFile(filepath.Join(dir, fmt.Sprintf("inflight-%s.json", os.Getenv("VERIF_SHARD"))), b, 0o644)
+}
+
 var replaySeq int
 
 func writeReplay(kind, signature, msg string, cas any) string {
